@@ -79,6 +79,24 @@ func newEngine(prog *ssa.Program, pkgs []*packages.Package) *Engine {
 	}
 	curTypes, structs := collectTypes(modPkgs)
 	curObjs := collectObjs(modPkgs)
+	curExt := collectExtCalls(modFns)
+	if *flagGenNames {
+		var l []string
+		for k := range curExt {
+			l = append(l, k)
+		}
+		sort.Strings(l)
+		data, _ := json.MarshalIndent(l, "", " ")
+		_ = os.WriteFile(filepath.Join(*flagVerif, "contracts-pinned", "extcalls.json"), append(data, '\n'), 0o644)
+	} else {
+		var l []string
+		if data, err := os.ReadFile(filepath.Join(*flagVerif, "contracts-pinned", "extcalls.json")); err == nil && json.Unmarshal(data, &l) == nil {
+			e.baseExt = map[string]bool{}
+			for _, k := range l {
+				e.baseExt[k] = true
+			}
+		}
+	}
 	if *flagGenNames {
 		data, _ := json.MarshalIndent(curTypes, "", " ")
 		_ = os.WriteFile(filepath.Join(*flagVerif, "contracts-pinned", "types.json"), append(data, '\n'), 0o644)
@@ -681,7 +699,7 @@ func main() {
 		}
 		var rest []string
 		for n, f := range e.fns {
-			if !listed[n] && len(f.Blocks) > 0 && f.Synthetic == "" && !strings.HasSuffix(n, "$bound") && !strings.Contains(n, "[") {
+			if !listed[n] && len(f.Blocks) > 0 && (f.Synthetic == "" || f.Synthetic == "package initializer") && !strings.HasSuffix(n, "$bound") && !strings.Contains(n, "[") {
 				rest = append(rest, n)
 			}
 		}
